@@ -1,11 +1,15 @@
 """Property -> rules map and claim texts."""
 from . import rules_tables as T
+from . import rules_numeric as N
 
 RULES = {
     "T1": T.rule_T1,
     "T2": T.rule_T2,
     "T3": T.rule_T3,
     "T6": T.rule_T6,
+    "N1": N.rule_N1,
+    "N2": N.rule_N2,
+    "N3": N.rule_N3,
 }
 
 PROPS = {
@@ -22,6 +26,13 @@ PROPS = {
         "definitions, induces exactly the ordered tiers of spec/precedence.json (compared as an ordered partition, never "
         "by number) and the associativity classes are as specified.",
     },
+    "C09": {
+        "rules": ["N1", "N2", "N3"],
+        "claim": "Decides the no-wrap/no-trap/finiteness clauses of C09 on the code of impl GarnishNumber for SimpleNumber and its helpers: "
+        "no raw or unchecked integer arithmetic, every overflow flag is branched on, no saturating float->int cast, every Float "
+        "built from an arithmetic result is dominated by a test excluding NaN and +-inf. The numeric exactness of std's "
+        "overflowing_*/f64 operations is trusted, not decided.",
+    },
     "C12": {
         "rules": ["T6"],
         "claim": "Decides the wiring clause of C12: each of the four comparison functions reports an ordering for incomparable "
@@ -33,6 +44,7 @@ PROPS = {
 TECHNIQUE = {
     "C01": "dispatch-table extraction from resolved HIR (5 composed tables vs a semantic operator spec), exhaustiveness of dispatch matches",
     "C02": "priority-map extraction from HIR compared as an ordered partition against the operator table; associativity classes",
+    "C09": "MIR scan of the number implementation: raw integer BinaryOp/overflow asserts, unchecked std integer calls, overflow-flag dataflow to a branch, FloatToInt casts, dominator check of finiteness tests over Float constructions",
     "C12": "constant/predicate wiring check on the four comparison functions; comparable type-pair arm table",
 }
 
